@@ -68,6 +68,27 @@ def main(tier, seed):
                     pass
             v2 = float(fn(x, y))
             v3 = float(fn(x0.copy(), y0.copy()))
+            # a caller-owned buffer that is refilled in place between evaluations (streaming samples through one array)
+            try:
+                x1 = vec(rng, name, n)
+                buf = x0.copy()
+                fn(buf, y)
+                buf[:] = x1
+                vb = float(fn(buf, y))
+                vf = float(fn(x1.copy(), y0.copy()))
+                ybuf = y0.copy()
+                fn(x, ybuf)
+                ybuf[:] = x1
+                vb2 = float(fn(x, ybuf))
+                vf2 = float(fn(x0.copy(), x1.copy()))
+            except ZeroDivisionError:
+                vb = vf = vb2 = vf2 = 0.0
+            if not (feq(vb, vf) and feq(vb2, vf2)):
+                nviol += 1
+                if nviol <= 3:
+                    rep.violation("DISTANCES[%r] on a buffer refilled in place returns %r / %r, on fresh arrays with the same values %r / %r" % (name, vb, vb2, vf, vf2),
+                                  dict(metric=name, x=x0.tolist(), x_refill=x1.tolist(), y=y0.tolist()), key="decorator:history")
+                continue
             if not (feq(v1, v2) and feq(v1, v3)):
                 nviol += 1
                 if nviol <= 3:
